@@ -182,6 +182,8 @@ def classify(msg):
     m = msg.lower()
     if 'postcondition' in m or 'post-condition' in m:
         return 'postcondition'
+    if 'requires not satisfied' in m:
+        return 'assertion'   # `assert(..) by(..) requires ..` proof hint
     if 'precondition' in m:
         return 'precondition'
     if 'invariant' in m:
@@ -283,9 +285,12 @@ def analyse(unit, path, text, regions, res, canary_marks=None):
                 # callee precondition without label: std/prelude panic site => C18; otherwise the caller's properties
                 sec = [s for s in spans if not s.get('is_primary')]
                 callee_in_region = any(os.path.basename(s['file_name']) == base and A.region_of_line(regions, s['line_start']) for s in sec)
-                if callee_in_region and region:
+                # a callee precondition without a label: std / prelude panic site (C18) -- and in any case an
+                # obligation of the function it occurs in (e.g. the ordering precondition of Lin + Lin for C16)
+                operator_pre = any(os.path.basename(s2['file_name']) == 'ops.rs' for s2 in sec)
+                if region and (callee_in_region or operator_pre):
                     props.update(region.props)
-                else:
+                if not callee_in_region:
                     props.add('C18')
             elif kind == 'assertion':
                 src = lines[line - 1]
